@@ -143,6 +143,16 @@ fn write_cases(ctx: &mut Ctx) {
             for &p in m.ones.iter().take(3000) { dup.push(p); if rng.chance(1, 3) { dup.push(p); } }
             if let Ok(ms) = mk::multiset_set(n, &dup) {
                 emit(ctx, &mut k, &ms, format!("type sparse\nn {}\nones {}\n", n, list(&dup)));
+                // Plain bitvectors produced by conversions (out of a multiset: every duplicate sets its bit once).
+                if let Ok(cv) = guard(|| BitVector::from(ms.clone())) {
+                    emit(ctx, &mut k, &cv, format!("type bitvector\nn {}\nsupports 0 0 0\nones {}\n", n, list(&m.ones.iter().copied().take(3000).collect::<Vec<usize>>())));
+                }
+            }
+            if let Ok(sv) = mk::sparse_set(n, &m.ones) {
+                if let Ok(cv) = guard(|| BitVector::from(sv)) { emit(ctx, &mut k, &cv, format!("type bitvector\nn {}\nsupports 0 0 0\nones {}\n", n, list(&m.ones))); }
+            }
+            if let Ok(rv) = mk::rl_runs(n, &m.runs()) {
+                if let Ok(cv) = guard(|| BitVector::from(rv)) { emit(ctx, &mut k, &cv, format!("type bitvector\nn {}\nsupports 0 0 0\nones {}\n", n, list(&m.ones))); }
             }
         }
         // Run-length vectors: the same bits, and run lists by code-unit profile.
